@@ -30,34 +30,116 @@ def _namedtuples(tree):
     return {w: list(ns[w]._fields) for w in want}
 
 
-def _statm(tree):
+def _statm_gen(tree):
+    """the unpacking assignment `a, b, … = (<elt> for x in <iter>)` of memory_info"""
     fn = _proc_method(tree, "memory_info")
-    unpack = None
-    take = None
     for n in ast.walk(fn):
         if isinstance(n, ast.Assign) and isinstance(n.targets[0], ast.Tuple) and isinstance(n.value, ast.GeneratorExp):
-            names = [dotted(e) for e in n.targets[0].elts]
-            ge = n.value
-            # int(x) * PAGESIZE for x in f.readline().split()[:7]
-            elt = ge.elt
-            if not (isinstance(elt, ast.BinOp) and isinstance(elt.op, ast.Mult)
-                    and {ast.unparse(elt.left), ast.unparse(elt.right)} == {"int(x)", "PAGESIZE"}):
-                raise NotRecognised("statm element is %s" % ast.unparse(elt))
-            it = ge.generators[0].iter
-            if not (isinstance(it, ast.Subscript) and isinstance(it.slice, ast.Slice) and it.slice.lower is None
-                    and ast.unparse(it.value) == "f.readline().split()"):
-                raise NotRecognised("statm iterable is %s" % ast.unparse(it))
-            take = const(it.slice.upper)
-            unpack = names
-    if unpack is None:
-        raise NotRecognised("statm unpacking not found")
+            return fn, n
+    raise NotRecognised("statm unpacking not found")
+
+
+def _statm_scale(tree):
+    """`int(x) * PAGESIZE` → "PAGESIZE"; `int(x) * 4096` → "4096" (TOTAL: any other element is returned as its text, the
+    obligation then fails with that text)"""
+    _, n = _statm_gen(tree)
+    elt = n.value.elt
+    if isinstance(elt, ast.BinOp) and isinstance(elt.op, ast.Mult):
+        sides = [ast.unparse(elt.left), ast.unparse(elt.right)]
+        if "int(x)" in sides:
+            sides.remove("int(x)")
+            return sides[0]
+    return "<" + ast.unparse(elt) + ">"
+
+
+def _statm_take(tree):
+    _, n = _statm_gen(tree)
+    it = n.value.generators[0].iter
+    if not (isinstance(it, ast.Subscript) and isinstance(it.slice, ast.Slice) and it.slice.lower is None
+            and ast.unparse(it.value) == "f.readline().split()"):
+        raise NotRecognised("statm iterable is %s" % ast.unparse(it))
+    return const(it.slice.upper)
+
+
+def _statm_order(tree):
+    fn, n = _statm_gen(tree)
+    unpack = [dotted(e) for e in n.targets[0].elts]
     ret = None
-    for n in ast.walk(fn):
-        if isinstance(n, ast.Return) and isinstance(n.value, ast.Call) and dotted(n.value.func) == "pmem":
-            ret = [dotted(a) for a in n.value.args]
+    for r in ast.walk(fn):
+        if isinstance(r, ast.Return) and isinstance(r.value, ast.Call) and dotted(r.value.func) == "pmem":
+            ret = [dotted(a) for a in r.value.args]
     if ret is None or len(ret) != len(unpack) or sorted(ret) != sorted(unpack):
         raise NotRecognised("pmem(...) call not recognised")
-    return [unpack.index(a) for a in ret], take
+    return [unpack.index(a) for a in ret]
+
+
+def _module_assign(tree, name):
+    """text of the module-level definition(s) of `name` (TOTAL)"""
+    vals = [ast.unparse(st.value) for st in tree.body
+            if isinstance(st, ast.Assign) and any(dotted(t) == name for t in st.targets)]
+    return " ; ".join(vals) if vals else "<undefined>"
+
+
+def _stmts(body):
+    """statement texts of a body, docstring dropped"""
+    return [ast.unparse(st) for st in body if not (isinstance(st, ast.Expr) and isinstance(st.value, ast.Constant))]
+
+
+def _class_guard(tree, name):
+    """the `if` of the _pslinux.Process CLASS BODY under which method `name` is defined: (test text, texts of its else branch);
+    ("True", []) when it is defined unconditionally (TOTAL for every nesting depth ≤ 1)"""
+    cls = extract.find_class(tree, "Process")
+    for st in cls.body:
+        if isinstance(st, ast.FunctionDef) and st.name == name:
+            return "True", []
+        if isinstance(st, ast.If):
+            if any(isinstance(x, ast.FunctionDef) and x.name == name for x in st.body):
+                return ast.unparse(st.test), _stmts(st.orelse)
+            if any(isinstance(x, ast.FunctionDef) and x.name == name for x in st.orelse):
+                return "not (%s)" % ast.unparse(st.test), _stmts(st.body)
+    raise NotRecognised("Process.%s is not defined at class level or under one class-level `if`" % name)
+
+
+def _fn_digest(fn):
+    import hashlib
+    body = [st for st in fn.body if not (isinstance(st, ast.Expr) and isinstance(st.value, ast.Constant))]
+    clone = ast.FunctionDef(name=fn.name, args=fn.args, body=body or [ast.Pass()], decorator_list=fn.decorator_list,
+                            returns=fn.returns, type_comment=None, type_params=[])
+    ast.fix_missing_locations(clone)
+    return hashlib.sha1(ast.unparse(clone).encode()).hexdigest()[:16]
+
+
+ANCHORED_LX = ["memory_info", "_parse_smaps_rollup", "_parse_smaps", "_read_smaps_file", "memory_full_info", "memory_maps"]
+ANCHORED_FRONT = ["memory_maps", "memory_percent"]
+
+
+def _digests(lx_tree, front_tree, common_tree):
+    """sha1 (16 hex digits) of the normalised text (`ast.unparse`, docstring and comments dropped) of every function the model
+    transcribes: an edit ANYWHERE in one of them — also a statement none of the fine-grained extractors looks at — changes a
+    digest, and the obligation `anchored_bodies_pinned` fails. One entry per function, each computed on its own."""
+    out = []
+    for name in ANCHORED_LX:
+        try:
+            out.append(("_pslinux.Process." + name, _fn_digest(_proc_method(lx_tree, name))))
+        except NotRecognised:
+            out.append(("_pslinux.Process." + name, "<not found>"))
+    try:
+        out.append(("_pslinux.virtual_memory", _fn_digest(extract.find_def(lx_tree, "virtual_memory"))))
+    except Exception:
+        out.append(("_pslinux.virtual_memory", "<not found>"))
+    cls = extract.find_class(front_tree, "Process")
+    for name in ANCHORED_FRONT:
+        fns = [n for n in ast.walk(cls) if isinstance(n, ast.FunctionDef) and n.name == name]
+        out.append(("Process." + name, _fn_digest(fns[0]) if len(fns) == 1 else "<%d definitions>" % len(fns)))
+    try:
+        out.append(("psutil.virtual_memory", _fn_digest(extract.find_def(front_tree, "virtual_memory"))))
+    except Exception:
+        out.append(("psutil.virtual_memory", "<not found>"))
+    try:
+        out.append(("_common.path_exists_strict", _fn_digest(extract.find_def(common_tree, "path_exists_strict"))))
+    except Exception:
+        out.append(("_common.path_exists_strict", "<not found>"))
+    return out
 
 
 def _factor_of(expr, inner_pred):
@@ -154,71 +236,65 @@ def _parse_smaps(tree):
 
 
 def _full_info(tree):
+    """the exception classes of the one `except` clause around `self._parse_smaps_rollup()` (TOTAL once a try is found)"""
     fn = _proc_method(tree, "memory_full_info")
-    src = ast.unparse(fn)
-    calls = [n for n in ast.walk(fn) if isinstance(n, ast.Call) and dotted(n.func) == "pfullmem"]
-    if len(calls) != 1 or ast.unparse(calls[0]) != "pfullmem(*basic_mem + (uss, pss, swap))":
-        raise NotRecognised("pfullmem call: %s" % [ast.unparse(c) for c in calls])
-    tries = [n for n in ast.walk(fn) if isinstance(n, ast.Try)]
+    tries = [n for n in ast.walk(fn) if isinstance(n, ast.Try)
+             and any("_parse_smaps_rollup" in ast.unparse(b) for b in n.body)]
     if len(tries) != 1:
-        raise NotRecognised("memory_full_info: %d try statements" % len(tries))
-    t = tries[0]
-    if ast.unparse(t.body[0]) != "uss, pss, swap = self._parse_smaps_rollup()":
-        raise NotRecognised("try body: %s" % ast.unparse(t.body[0]))
-    if len(t.handlers) != 1:
-        raise NotRecognised("handlers")
-    h = t.handlers[0]
-    excs = sorted(dotted(e) for e in (h.type.elts if isinstance(h.type, ast.Tuple) else [h.type]))
-    if ast.unparse(h.body[0]) != "uss, pss, swap = self._parse_smaps()":
-        raise NotRecognised("handler body: %s" % ast.unparse(h.body[0]))
-    guard = [n for n in ast.walk(fn) if isinstance(n, ast.If) and ast.unparse(n.test) == "HAS_PROC_SMAPS_ROLLUP"]
-    if len(guard) != 1 or t not in guard[0].body or ast.unparse(guard[0].orelse[0]) != "uss, pss, swap = self._parse_smaps()":
-        raise NotRecognised("HAS_PROC_SMAPS_ROLLUP guard not recognised")
-    del src
-    return excs
+        raise NotRecognised("memory_full_info: %d try statements around _parse_smaps_rollup()" % len(tries))
+    excs = []
+    for h in tries[0].handlers:
+        if not any("self._parse_smaps()" in ast.unparse(b) for b in h.body):
+            continue                      # a handler that does not fall back does not count
+        if h.type is None:
+            excs.append("BaseException")
+        else:
+            excs += [dotted(e) for e in (h.type.elts if isinstance(h.type, ast.Tuple) else [h.type])]
+    return sorted(excs)
 
 
-def _maps(tree):
+def _full_info_stmts(tree):
+    return _stmts(_proc_method(tree, "memory_full_info").body)
+
+
+def _full_info_basic_first(tree):
+    """is statm (`self.memory_info()`) read BEFORE the first statement that reads the smaps side? (TOTAL)"""
+    st = _full_info_stmts(tree)
+    basic = [i for i, x in enumerate(st) if "self.memory_info()" in x]
+    ext = [i for i, x in enumerate(st) if "_parse_smaps" in x]
+    if not basic or not ext:
+        raise NotRecognised("memory_full_info: statements %r" % st)
+    return min(basic) < min(ext)
+
+
+def _maps_fn(tree):
     fn = _proc_method(tree, "memory_maps")
-    gb = None
     for n in ast.walk(fn):
         if isinstance(n, ast.FunctionDef) and n.name == "get_blocks":
-            gb = n
-    if gb is None:
-        raise NotRecognised("get_blocks not found")
-    info = {}
-    # data = {} exactly once, before the loop, never cleared
-    creates = [n for n in ast.walk(gb) if isinstance(n, ast.Assign) and ast.unparse(n) == "data = {}"]
+            return fn, n
+    raise NotRecognised("get_blocks not found")
+
+
+def _maps_dict(tree):
+    """is get_blocks' dict re-created / cleared per mapping? (TOTAL once `data = {}` exists)"""
+    _, gb = _maps_fn(tree)
+    creates = [n for n in ast.walk(gb) if isinstance(n, ast.Assign) and ast.unparse(n) in ("data = {}", "data = dict()")]
     clears = [n for n in ast.walk(gb) if isinstance(n, ast.Call) and dotted(n.func) in ("data.clear",)]
-    info["dict_created_in_loop"] = any(
-        isinstance(p, ast.For) and any(c in ast.walk(p) for c in creates) for p in ast.walk(gb)) or bool(clears)
     if len(creates) < 1:
         raise NotRecognised("get_blocks: `data = {}` not found")
-    # fields = line.split(None, 5)
+    return any(isinstance(p, ast.For) and any(c in ast.walk(p) for c in creates) for p in ast.walk(gb)) or bool(clears)
+
+
+def _maps_split(tree):
+    fn, gb = _maps_fn(tree)
     sp = [n for n in ast.walk(gb) if isinstance(n, ast.Assign) and dotted(n.targets[0]) == "fields"]
     if len(sp) != 1 or not ast.unparse(sp[0].value).startswith("line.split(None, "):
         raise NotRecognised("get_blocks split: %s" % [ast.unparse(s) for s in sp])
-    info["maxsplit"] = const(sp[0].value.args[1])
-    # if not fields[0].endswith(b':')
     tests = [n for n in ast.walk(gb) if isinstance(n, ast.If) and "endswith" in ast.unparse(n.test)]
     if len(tests) != 1 or ast.unparse(tests[0].test) != "not fields[0].endswith(b':')":
         raise NotRecognised("header test: %s" % [ast.unparse(t.test) for t in tests])
-    # data[fields[0]] = int(fields[1]) * 1024
-    st = [n for n in ast.walk(gb) if isinstance(n, ast.Assign) and ast.unparse(n.targets[0]) == "data[fields[0]]"]
-    if len(st) != 1:
-        raise NotRecognised("dict store not found")
-    info["factor"] = _factor_of(st[0].value, lambda e: ast.unparse(e) == "int(fields[1])")
-    # VmFlags skip
-    fl = [n for n in ast.walk(gb) if isinstance(n, ast.If) and "startswith" in ast.unparse(n.test)]
-    if len(fl) != 1 or not isinstance(fl[0].body[0], ast.Continue):
-        raise NotRecognised("VmFlags skip not recognised")
-    t = fl[0].test
-    if not (isinstance(t, ast.Call) and ast.unparse(t.func) == "fields[0].startswith"):
-        raise NotRecognised("VmFlags test: %s" % ast.unparse(t))
-    info["flags_prefix"] = const(t.args[0])
-    # header handling
     hs = [n for n in ast.walk(fn) if isinstance(n, ast.Assign) and dotted(n.targets[0]) == "hfields"]
-    if len(hs) != 1 or ast.unparse(hs[0].value) != "header.split(None, %d)" % info["maxsplit"]:
+    if len(hs) != 1 or not ast.unparse(hs[0].value).startswith("header.split(None, "):
         raise NotRecognised("hfields: %s" % [ast.unparse(h) for h in hs])
     unp = [n for n in ast.walk(fn) if isinstance(n, ast.Assign) and isinstance(n.targets[0], ast.Tuple)
            and ast.unparse(n.value).startswith("hfields")]
@@ -227,18 +303,66 @@ def _maps(tree):
         raise NotRecognised("header unpack targets: %r" % names)
     if sorted(ast.unparse(u.value) for u in unp) != ["hfields", "hfields + ['']"]:
         raise NotRecognised("header unpack values: %r" % [ast.unparse(u.value) for u in unp])
+    return const(hs[0].value.args[1])          # the header's maxsplit (get_blocks' own only needs fields[0], fields[1])
+
+
+def _maps_factor(tree):
+    _, gb = _maps_fn(tree)
+    st = [n for n in ast.walk(gb) if isinstance(n, ast.Assign) and ast.unparse(n.targets[0]) == "data[fields[0]]"]
+    if len(st) != 1:
+        raise NotRecognised("dict store not found")
+    return _factor_of(st[0].value, lambda e: ast.unparse(e) == "int(fields[1])")
+
+
+def _maps_flags(tree):
+    _, gb = _maps_fn(tree)
+    fl = [n for n in ast.walk(gb) if isinstance(n, ast.If) and "startswith" in ast.unparse(n.test)]
+    if len(fl) != 1 or not isinstance(fl[0].body[0], ast.Continue):
+        raise NotRecognised("VmFlags skip not recognised")
+    t = fl[0].test
+    if not (isinstance(t, ast.Call) and ast.unparse(t.func) == "fields[0].startswith"):
+        raise NotRecognised("VmFlags test: %s" % ast.unparse(t))
+    return const(t.args[0])
+
+
+def _maps_anon_if(tree):
+    fn, _ = _maps_fn(tree)
     anon = [n for n in ast.walk(fn) if isinstance(n, ast.If) and ast.unparse(n.test) == "not path"]
-    if len(anon) != 1 or len(anon[0].body) != 1 or not ast.unparse(anon[0].body[0]).startswith("path = "):
+    if len(anon) != 1:
+        raise NotRecognised("`if not path:` found %d times" % len(anon))
+    return anon[0]
+
+
+def _maps_anon(tree):
+    a = _maps_anon_if(tree)
+    if len(a.body) != 1 or not ast.unparse(a.body[0]).startswith("path = "):
         raise NotRecognised("anon branch not recognised")
-    info["anon"] = const(anon[0].body[0].value)
-    orelse = anon[0].orelse
-    srcs = [ast.unparse(s) for s in orelse]
-    if not srcs or srcs[0] != "path = decode(path)":
-        raise NotRecognised("path decode not first: %r" % srcs[:1])
-    info["strips"] = "path = path.strip()" in srcs
-    extra = [s for s in srcs[1:] if s != "path = path.strip()" and not s.startswith("if ")]
-    if extra:
-        raise NotRecognised("unknown path statements: %r" % extra)
+    return const(a.body[0].value)
+
+
+def _maps_path_stmts(tree):
+    """EVERY statement of the named-mapping branch (`else:` of `if not path:`), as text — pinned whole by the obligation
+    `path_handling_facts`, so a statement the other extractors do not look at (an `else:` on the deleted-`if`, a second statement
+    in its body, a `.replace(…)`) cannot slip through (TOTAL)"""
+    return _stmts(_maps_anon_if(tree).orelse)
+
+
+STRIP_LIKE = ("strip", "rstrip", "lstrip", "removesuffix", "removeprefix", "replace", "translate", "split", "rsplit", "partition",
+              "rpartition", "expandtabs", "lower", "upper", "casefold", "normalize", "normpath", "realpath", "abspath")
+
+
+def _maps_strips(tree):
+    """does the named-mapping branch pass the name through ANY text-changing call (`.strip()`, `.rstrip()`, `.replace()`, … —
+    anywhere: top level, inside the deleted-`if`, in an `else:`, nested in `decode(path).strip()`)? (TOTAL)"""
+    for st in _maps_anon_if(tree).orelse:
+        for n in ast.walk(st):
+            if isinstance(n, ast.Call) and isinstance(n.func, ast.Attribute) and n.func.attr in STRIP_LIKE:
+                return True
+    return False
+
+
+def _maps_deleted(tree):
+    orelse = _maps_anon_if(tree).orelse
     dl = [s for s in orelse if isinstance(s, ast.If)]
     if len(dl) != 1:
         raise NotRecognised("deleted test not found")
@@ -247,13 +371,15 @@ def _maps(tree):
             and ast.unparse(t.values[0]).startswith("path.endswith(")
             and ast.unparse(t.values[1]) == "not path_exists_strict(path)"):
         raise NotRecognised("deleted test: %s" % ast.unparse(t))
-    info["deleted"] = const(t.values[0].args[0])
     cut = dl[0].body[0]
     if not (isinstance(cut, ast.Assign) and isinstance(cut.value, ast.Subscript) and ast.unparse(cut.value.value) == "path"
             and isinstance(cut.value.slice, ast.Slice) and cut.value.slice.lower is None):
         raise NotRecognised("deleted cut: %s" % ast.unparse(cut))
-    info["cut"] = -const(cut.value.slice.upper)
-    # item tuple
+    return const(t.values[0].args[0]), -const(cut.value.slice.upper)
+
+
+def _maps_keys(tree):
+    fn, _ = _maps_fn(tree)
     items = [n for n in ast.walk(fn) if isinstance(n, ast.Assign) and dotted(n.targets[0]) == "item"
              and isinstance(n.value, ast.Tuple)]
     if len(items) != 1:
@@ -267,24 +393,19 @@ def _maps(tree):
         if not (isinstance(e, ast.Call) and dotted(e.func) == "data.get" and len(e.args) == 2 and const(e.args[1]) == 0):
             raise NotRecognised("item element: %s" % ast.unparse(e))
         keys.append(const(e.args[0]))
-    info["keys"] = keys
-    # empty file → _raise_if_zombie(); return []
-    emp = [n for n in ast.walk(fn) if isinstance(n, ast.If) and ast.unparse(n.test) == "not data"]
-    if len(emp) != 1 or [ast.unparse(s) for s in emp[0].body] != ["self._raise_if_zombie()", "return []"]:
-        raise NotRecognised("empty-smaps branch: %r" % [ast.unparse(s) for s in (emp[0].body if emp else [])])
-    return info
+    return keys
 
 
-def _front(tree):
+def _front_fn(tree, name):
     cls = extract.find_class(tree, "Process")
-    mm = mp = None
-    for n in ast.walk(cls):
-        if isinstance(n, ast.FunctionDef) and n.name == "memory_maps":
-            mm = n
-        if isinstance(n, ast.FunctionDef) and n.name == "memory_percent":
-            mp = n
-    if mm is None or mp is None:
-        raise NotRecognised("front-end memory_maps / memory_percent not found")
+    fns = [n for n in ast.walk(cls) if isinstance(n, ast.FunctionDef) and n.name == name]
+    if len(fns) != 1:
+        raise NotRecognised("front-end Process.%s: %d definitions" % (name, len(fns)))
+    return fns[0]
+
+
+def _front_group(tree):
+    mm = _front_fn(tree, "memory_maps")
     info = {}
     src = ast.unparse(mm)
     a = [n for n in ast.walk(mm) if isinstance(n, ast.Assign) and dotted(n.targets[0]) == "path"
@@ -299,6 +420,12 @@ def _front(tree):
         raise NotRecognised("grouping fold not recognised")
     if "[nt(path, *d[path]) for path in d]" not in src or "[nt(*x) for x in it]" not in src:
         raise NotRecognised("grouping output not recognised")
+    return info
+
+
+def _front_pct_total(tree):
+    """`total_phymem = _TOTAL_PHYMEM or virtual_memory().total` → True, `= virtual_memory().total` → False"""
+    mp = _front_fn(tree, "memory_percent")
     psrc = ast.unparse(mp)
     for needle in ("self.memory_info if memtype in _psplatform.pmem._fields else self.memory_full_info",
                    "value = getattr(metrics, memtype)",
@@ -310,12 +437,10 @@ def _front(tree):
         raise NotRecognised("memory_percent: %d assignments to total_phymem" % len(tot))
     tsrc = ast.unparse(tot[0].value)
     if tsrc == "_TOTAL_PHYMEM or virtual_memory().total":
-        info["uses_cache"] = True
-    elif tsrc == "virtual_memory().total":
-        info["uses_cache"] = False
-    else:
-        raise NotRecognised("memory_percent: total_phymem = %s" % tsrc)
-    return info
+        return True
+    if tsrc == "virtual_memory().total":
+        return False
+    raise NotRecognised("memory_percent: total_phymem = %s" % tsrc)
 
 
 def _pct_validation(tree):
@@ -435,38 +560,44 @@ def facts(snap, F):
             return v
         return g
 
+    fe = lambda: extract.parse_module(snap, "__init__.py")
+    co = lambda: extract.parse_module(snap, "_common.py")
     nts = memo("nts", lambda: _namedtuples(lx()))
-    statm = memo("statm", lambda: _statm(lx()))
     roll = memo("roll", lambda: _rollup(lx()))
     psm = memo("psm", lambda: _parse_smaps(lx()))
-    maps = memo("maps", lambda: _maps(lx()))
-    full = memo("full", lambda: _full_info(lx()))
-    front = memo("front", lambda: _front(extract.parse_module(snap, "__init__.py")))
-    pval = memo("pval", lambda: _pct_validation(extract.parse_module(snap, "__init__.py")))
-    fvm = memo("fvm", lambda: _front_vm(extract.parse_module(snap, "__init__.py")))
+    deleted = memo("deleted", lambda: _maps_deleted(lx()))
+    grp = memo("grp", lambda: _front_group(fe()))
     vm = memo("vm", lambda: _vm(lx()))
-    decos = memo("decos", lambda: _decorators(lx(), extract.parse_module(snap, "__init__.py")))
+    decos = memo("decos", lambda: _decorators(lx(), fe()))
+    fguard = memo("fguard", lambda: _class_guard(lx(), "memory_full_info"))
     S, L, B, N = extract.lean_str, extract.lean_list, extract.lean_bytes, extract.lean_nat
 
-    F.try_add("statmOrder", "List Nat", lambda: L(statm()[0], N),
+    # every fact is extracted on its own: an unrecognised statement costs the facts that speak about it, nothing else
+    F.try_add("statmOrder", "List Nat", lambda: L(_statm_order(lx()), N),
               "for each pmem field, the /proc/pid/statm column it receives (unpack names vs pmem(...) arguments)")
-    F.try_add("statmTake", "Nat", lambda: N(statm()[1]), "the `[:7]` slice of memory_info")
+    F.try_add("statmTake", "Nat", lambda: N(_statm_take(lx())), "the `[:7]` slice of memory_info")
+    F.try_add("statmScale", "String", lambda: S(_statm_scale(lx())),
+              "what `int(x)` is multiplied by in memory_info: the module global PAGESIZE (a literal, or any other expression, is printed as it is)")
+    F.try_add("pagesizeDef", "String", lambda: S(_module_assign(lx(), "PAGESIZE")),
+              "the module-level definition of _pslinux.PAGESIZE")
     F.try_add("pmemFields", "List String", lambda: L(nts()["pmem"], S), "pmem._fields")
     F.try_add("pfullmemFields", "List String", lambda: L(nts()["pfullmem"], S), "pfullmem._fields")
     F.try_add("pmmapGroupedFields", "List String", lambda: L(nts()["pmmap_grouped"], S), "pmmap_grouped._fields")
     F.try_add("pmmapExtFields", "List String", lambda: L(nts()["pmmap_ext"], S), "pmmap_ext._fields")
-    F.try_add("mapsKeys", "List (List Nat)", lambda: L(maps()["keys"], B),
+    F.try_add("mapsKeys", "List (List Nat)", lambda: L(_maps_keys(lx()), B),
               "keys read by memory_maps out of the per-mapping dict, in row order")
-    F.try_add("mapsFactor", "Nat", lambda: N(maps()["factor"]), "`int(fields[1]) * 1024` in get_blocks")
-    F.try_add("mapsMaxsplit", "Nat", lambda: N(maps()["maxsplit"]), "`line.split(None, 5)` / `header.split(None, 5)`")
-    F.try_add("mapsDictPerBlock", "Bool", lambda: extract.lean_bool(maps()["dict_created_in_loop"]),
+    F.try_add("mapsFactor", "Nat", lambda: N(_maps_factor(lx())), "`int(fields[1]) * 1024` in get_blocks")
+    F.try_add("mapsMaxsplit", "Nat", lambda: N(_maps_split(lx())), "`header.split(None, 5)`")
+    F.try_add("mapsDictPerBlock", "Bool", lambda: extract.lean_bool(_maps_dict(lx())),
               "is get_blocks' dict re-created / cleared for every mapping? (false: created once)")
-    F.try_add("anonName", "List Nat", lambda: B(maps()["anon"].encode()), "'[anon]'")
-    F.try_add("deletedSuffix", "List Nat", lambda: B(maps()["deleted"].encode()), "' (deleted)'")
-    F.try_add("deletedCut", "Nat", lambda: N(maps()["cut"]), "`path[:-10]`")
-    F.try_add("stripsPath", "Bool", lambda: extract.lean_bool(maps()["strips"]),
-              "does memory_maps strip() the decoded path (which drops trailing blanks of a file name)?")
-    F.try_add("flagsPrefix", "List Nat", lambda: B(maps()["flags_prefix"]), "b'VmFlags:'")
+    F.try_add("anonName", "List Nat", lambda: B(_maps_anon(lx()).encode()), "'[anon]'")
+    F.try_add("deletedSuffix", "List Nat", lambda: B(deleted()[0].encode()), "' (deleted)'")
+    F.try_add("deletedCut", "Nat", lambda: N(deleted()[1]), "`path[:-10]`")
+    F.try_add("stripsPath", "Bool", lambda: extract.lean_bool(_maps_strips(lx())),
+              "does memory_maps pass the decoded name through strip() / rstrip() / replace() / … anywhere in the named-mapping branch (which would drop or change blanks of a file name)?")
+    F.try_add("mapsPathStmts", "List String", lambda: L(_maps_path_stmts(lx()), S),
+              "every statement of memory_maps' named-mapping branch (the `else:` of `if not path:`)")
+    F.try_add("flagsPrefix", "List Nat", lambda: B(_maps_flags(lx())), "b'VmFlags:'")
     F.try_add("smapsFactor", "Nat", lambda: N(psm()["uss"][1]), "`* 1024` of the three sums in _parse_smaps")
     F.try_add("privateRe", "String", lambda: S(psm()["uss"][0].decode("latin-1")), "regex summed into uss")
     F.try_add("pssRe", "String", lambda: S(psm()["pss"][0].decode("latin-1")), "regex summed into pss")
@@ -480,15 +611,29 @@ def facts(snap, F):
     F.try_add("rollupPrefixes", "List (List Nat)", lambda: L(roll()[0], B),
               "startswith() prefixes of _parse_smaps_rollup in branch order (uss +=, pss =, swap =)")
     F.try_add("rollupFactor", "Nat", lambda: N(roll()[1]), "`* 1024` in _parse_smaps_rollup")
-    F.try_add("fallbackExcs", "List String", lambda: L(full(), S),
+    F.try_add("fallbackExcs", "List String", lambda: L(_full_info(lx()), S),
               "exceptions of the roll-up that make memory_full_info fall back to smaps")
-    F.try_add("groupPathIdx", "Nat", lambda: N(front()["path_idx"]), "`path = tupl[2]` in the grouping loop")
-    F.try_add("groupNumsFrom", "Nat", lambda: N(front()["nums_from"]), "`nums = tupl[3:]` in the grouping loop")
-    F.try_add("pctValidation", "String", lambda: S(pval()),
+    F.try_add("fullInfoStmts", "List String", lambda: L(_full_info_stmts(lx()), S),
+              "every top-level statement of _pslinux.Process.memory_full_info, in order (statm is read AFTER uss / pss / swap)")
+    F.try_add("fullInfoBasicFirst", "Bool", lambda: extract.lean_bool(_full_info_basic_first(lx())),
+              "does memory_full_info read statm (`basic_mem = self.memory_info()`) BEFORE uss / pss / swap? (false: after)")
+    F.try_add("fullInfoGuard", "String", lambda: S(fguard()[0]),
+              "the class-body `if` under which _parse_smaps_rollup / _parse_smaps / memory_full_info are defined")
+    F.try_add("fullInfoElse", "List String", lambda: L(fguard()[1], S), "its `else:` branch (`memory_full_info = memory_info`)")
+    F.try_add("mapsGuard", "String", lambda: S(_class_guard(lx(), "memory_maps")[0]),
+              "the class-body `if` under which memory_maps is defined")
+    F.try_add("pathExistsStrict", "List String", lambda: L(_stmts(extract.find_def(co(), "path_exists_strict").body), S),
+              "the body of _common.path_exists_strict: os.stat; PermissionError re-raised (→ AccessDenied), any other OSError → False, else True")
+    F.try_add("anchoredBodies", "List (String × String)",
+              lambda: L(_digests(lx(), fe(), co()), lambda e: "(%s, %s)" % (S(e[0]), S(e[1]))),
+              "sha1[:16] of the normalised text of every function the model transcribes (an edit anywhere in one of them changes its digest)")
+    F.try_add("groupPathIdx", "Nat", lambda: N(grp()["path_idx"]), "`path = tupl[2]` in the grouping loop")
+    F.try_add("groupNumsFrom", "Nat", lambda: N(grp()["nums_from"]), "`nums = tupl[3:]` in the grouping loop")
+    F.try_add("pctValidation", "String", lambda: S(_pct_validation(fe())),
               "how memory_percent validates memtype (membership in list(pfullmem._fields), rejected with ValueError)")
-    F.try_add("pctUsesCache", "Bool", lambda: extract.lean_bool(front()["uses_cache"]),
+    F.try_add("pctUsesCache", "Bool", lambda: extract.lean_bool(_front_pct_total(fe())),
               "memory_percent: `total_phymem = _TOTAL_PHYMEM or virtual_memory().total` (false: always virtual_memory().total)")
-    F.try_add("vmStoresTotal", "Bool", lambda: extract.lean_bool(fvm()),
+    F.try_add("vmStoresTotal", "Bool", lambda: extract.lean_bool(_front_vm(fe())),
               "psutil.virtual_memory() does `global _TOTAL_PHYMEM; _TOTAL_PHYMEM = ret.total`")
     F.try_add("meminfoFactor", "Nat", lambda: N(vm()["factor"]), "`mems[fields[0]] = int(fields[1]) * 1024` in _pslinux.virtual_memory")
     F.try_add("meminfoTotalKey", "List Nat", lambda: B(vm()["total"]), "`total = mems[b'MemTotal:']`")
